@@ -16,6 +16,7 @@ type GCrypto struct {
 	IKEv2    bool
 	PFS      string // "", "group2", "group14"
 	Lifetime string // seconds
+	TS2      bool   // ikev1: a second transform-set (TransB) is listed behind the first
 }
 
 // GDyn is a dynamic crypto map entry (peer known by certificate name).
@@ -153,6 +154,10 @@ func (v *GVPN) Text() string {
 				fmt.Fprintf(&b, "crypto ipsec ikev1 transform-set %s %s\n", e.TSName, e.TSDef)
 			}
 		}
+		if e.TS2 && !e.IKEv2 && !tsSeen["TransB"] {
+			tsSeen["TransB"] = true
+			b.WriteString("crypto ipsec ikev1 transform-set TransB esp-aes-192 esp-md5-hmac\n")
+		}
 		p := fmt.Sprintf("crypto map %s %d ", v.MapName, e.Seq)
 		b.WriteString(p + "match address " + e.ACL.Name + "\n")
 		if e.PFS != "" {
@@ -162,7 +167,13 @@ func (v *GVPN) Text() string {
 		if e.IKEv2 {
 			b.WriteString(p + "set ikev2 ipsec-proposal " + e.TSName + "\n")
 		} else {
-			b.WriteString(p + "set ikev1 transform-set " + e.TSName + "\n")
+			if e.TS2 {
+				// Two references in one command: the first may be renamed
+				// or replaced while the second stays.
+				b.WriteString(p + "set ikev1 transform-set " + e.TSName + " TransB\n")
+			} else {
+				b.WriteString(p + "set ikev1 transform-set " + e.TSName + "\n")
+			}
 		}
 		if e.Lifetime != "" {
 			b.WriteString(p + "set security-association lifetime seconds " + e.Lifetime + "\n")
@@ -323,6 +334,7 @@ func (g *Gen) TargetVPN(intf string) *GVPN {
 		if g.Rng.Intn(2) == 0 {
 			e.ACL.Lines = append(e.ACL.Lines, g.plainACE())
 		}
+		e.TS2 = !e.IKEv2 && seq%2 == 1
 		e.PFS = []string{"", "group2", "group14"}[g.Rng.Intn(3)]
 		if g.Rng.Intn(2) == 0 {
 			e.Lifetime = fmt.Sprint(3600 * (1 + g.Rng.Intn(8)))
@@ -567,6 +579,18 @@ func (g *Gen) EditVPN(v *GVPN) string {
 				}
 			}
 			return "crypto-proposal-changed"
+		}
+		if len(v.Entries) > 0 {
+			// No ikev2 entry: the transform-set of the first entry has
+			// other parameters on the device.
+			e := v.Entries[0]
+			for _, x := range v.Entries {
+				if x != e && x.TSName == e.TSName {
+					x.TSDef = "esp-aes esp-sha-hmac"
+				}
+			}
+			e.TSDef = "esp-aes esp-sha-hmac"
+			return "crypto-transform-set-changed"
 		}
 	case 1:
 		if len(v.Entries) > 0 {
